@@ -1,14 +1,14 @@
 SPECIFICATION Spec
 CONSTANTS
   U = "quick"
-  Kind = "obj"
+  Kind = "list2"
   InitPartial = FALSE
   Mirror = FALSE
   MaxLevel = 40
   Small = FALSE
-  Avoid = FALSE
+  Avoid = TRUE
   SimK = 1
-  Acts = {"dset", "oset", "rebind", "ddel", "batch", "lset", "ldel", "slice", "lins", "inplace", "xslice"}
+  Acts = {"xslice", "slice", "ldel", "lins", "lset", "inplace"}
 CONSTRAINT LevelBound
 INVARIANT Conforms
 INVARIANT AltsConform
